@@ -244,6 +244,35 @@ def run_function_level(ctx, cases):
             if want is not None and vers[want] not in rec and o.isdigit():
                 ctx.violation("a version the servermap cannot recover was handed out", gc,
                               "get-version-unrecoverable-function")
+    # verify: the verifier's mark_bad_share calls, then _make_checker_results on the same map
+    vlines, vimpl, vcases = [], [], []
+    for n_, (vers, ops) in enumerate(cases):
+        known = c11.ref_known(vers, ops)
+        keys = sorted(known)
+        if not keys:
+            continue
+        marks = [keys[(7 * n_) % len(keys)]] + ([keys[(3 * n_ + 1) % len(keys)]] if n_ % 3 == 0 else [])
+        marks = sorted(set(marks))
+        sm = c11.build_smap(vers, ops, servers)
+        for (srv_, sh_) in marks:
+            sm.mark_bad_share(servers[srv_], sh_, b"\x00")
+        try:
+            o = impl_check(sm)
+        except Exception as e:
+            o = "harness-exception:" + type(e).__name__
+        vlines.append("checkv %s %s %s" % (",".join("%d.%d" % m for m in marks), mc.vtable(vers), " ".join(c11.op_tokens(ops))))
+        vimpl.append(o)
+        vc = {"kind": "check", "vers": [mc.enc_ver(v) for v in vers], "ops": [list(o_) for o_ in ops], "marks": marks}
+        vcases.append(vc)
+        left = {key: v for key, v in known.items() if key not in marks}
+        if (o[0] == "T") != ref_health(left):
+            ctx.violation("after the verifier's marks the checker says healthy=%s; the unmarked shares hold %d version(s)" % (
+                o[0], len(set(left.values()))), vc, "healthy-after-verify-marks-function")
+        ctx.case(("checkv", vlines[-1]) if len(set(known.values())) >= 2 else None)
+    vm = ctx.model(vlines)
+    if vm is not None:
+        ctx.compare("_make_checker_results after the verifier's mark_bad_share calls (afterVerify)", vcases, vimpl,
+                    [canon_model_check(m) for m in vm])
     gm = ctx.model(glines)
     if gm is not None:
         ctx.compare("MutableFileNode._get_version_from_servermap (requested version / best / UnrecoverableFileError)",
